@@ -278,6 +278,7 @@ class CompilerProcess:
     def system_op(self, i: int, op: dict, fn, budget: int, argv=None) -> dict:
         fs = self.fs
         fs.begin_op(self.faults_by_op.get(i))
+        budget = int(budget * float(self.plan.get("budget_factor", 1)))
         rec = {"i": i, "op": op["op"]}
         self.wall_tripped = False
         win = Window(fs, self.tw, argv=argv)
